@@ -58,6 +58,9 @@ pub struct SimSpec {
 	/// install spawn hooks and error handlers through the async variants of the Job API
 	#[serde(default)]
 	pub async_api: bool,
+	/// with the async API: the spawn hook's future suspends for this many (virtual) ms before the spawn goes on
+	#[serde(default)]
+	pub hook_delay: u8,
 }
 
 impl SimSpec {
@@ -213,15 +216,20 @@ impl World {
 	}
 
 	/// The same hook through `set_spawn_async_hook`: the work is done when the closure is called, the
-	/// returned future is ready at once (so the schedule is that of the sync hook).
+	/// returned future is ready at once, or suspends for `hook_delay` ms (the job task is busy meanwhile).
 	pub fn hook_async(
 		&self,
 		marker: Option<u32>,
 	) -> impl (Fn(&mut TokioCommandWrap, &JobTaskContext<'_>) -> Box<dyn std::future::Future<Output = ()> + Send + Sync>) + Send + Sync + 'static {
 		let f = self.hook(marker);
+		let delay = u64::from(self.0.lock().unwrap().spec.hook_delay);
 		move |cmd, ctx| {
 			f(cmd, ctx);
-			Box::new(std::future::ready(()))
+			if delay == 0 {
+				Box::new(std::future::ready(()))
+			} else {
+				Box::new(async move { tokio::time::sleep(std::time::Duration::from_millis(delay)).await })
+			}
 		}
 	}
 
